@@ -299,8 +299,9 @@ def uni_specs(ctx, n_random, deep=False):
     rng = ctx.rng('uni-specs', 'deep' if deep else 'tie')
     specs = []
 
-    def add(name, opts, data, kind):
-        specs.append(((name, repr(sorted(opts.items())), kind, len(data)), name, opts, data, kind))
+    def add(name, opts, data, kind, pre=(), hist=''):
+        key = (name, repr(sorted(opts.items())), kind, len(data)) + ((hist,) if hist else ())
+        specs.append((key, name, opts, data, kind, tuple(np.asarray(p, dtype=float) for p in pre)))
     size = (lambda: rng.randint(150, 400)) if deep else (lambda: rng.randint(25, 70))
     rs = np.random.RandomState(rng.getrandbits(32))
     # every family on a constant and on one natural data kind
@@ -350,6 +351,26 @@ def uni_specs(ctx, n_random, deep=False):
         add('Univariate', {'candidates': cands}, gen_data(rs, kind, size()), kind)
     add('Univariate', {'candidates': ['GaussianUnivariate', 'UniformUnivariate']}, np.full(10, rng.choice(CONSTANTS)), 'const')
     add('Univariate', {'parametric': 'PARAMETRIC', 'bounded': 'UNBOUNDED'}, gen_data(rs, 'normal', size()), 'normal')
+    # fit HISTORIES: the same object fitted before on other data (a round trip must reproduce the object as it is)
+    hsize = (lambda: rng.randint(60, 120)) if deep else (lambda: rng.randint(25, 50))
+    wrappers = [('Univariate', {'candidates': ['GaussianUnivariate', 'UniformUnivariate']}, 'normal'),
+                ('Univariate', {'candidates': ['GaussianKDE']}, 'normal')]
+    extra = [('GaussianKDE', {'sample_size': 20}, 'normal'), ('TruncatedGaussian', {}, 'uniform')]
+    for name, opts, kind in [(n, {}, natural[n]) for n in C] + wrappers + extra:
+        def const():
+            return np.full(rng.randint(3, 25), rng.choice(CONSTANTS[:7]))
+
+        def data():
+            return gen_data(rs, kind, hsize())
+        hists = {'const>data': lambda: ([const()], data(), kind), 'data>const': lambda: ([data()], const(), 'const'),
+                 'const>const': lambda: ([const()], const(), 'const'), 'data>data': lambda: ([data()], data(), kind),
+                 'const>data>const>data': lambda: ([const(), data(), const()], data(), kind)}
+        chosen = list(hists) if deep else ['const>data', rng.choice(['data>const', 'const>const', 'data>data'])]
+        if name == 'GaussianKDE' and 'data>const' not in chosen:
+            chosen.append('data>const')       # a constant refit keeps the earlier `_model` (recorded finding): every run
+        for h in chosen:
+            pre, final, k = hists[h]()
+            add(name, opts, final, k, pre=pre, hist=h)
     # random rest
     names = list(C)
     for _ in range(n_random):
@@ -373,8 +394,16 @@ def uni_specs(ctx, n_random, deep=False):
                 o['bounded'] = BoundedType[o['bounded']]
             return Univariate(**o)
         return C[name](**opts)
-    for key, name, opts, data, kind in specs:
-        yield key, (lambda name=name, opts=opts: factory(name, opts)), name, opts, np.asarray(data, dtype=float), kind
+    def prefitted(name, opts, pre):
+        m = factory(name, opts)
+        for p in pre:
+            if outcome(lambda: m.fit(p))[0] == 'err':      # an earlier fit refused its data: start from a fresh object
+                m = factory(name, opts)
+        return m
+    for key, name, opts, data, kind, pre in specs:
+        f = (lambda name=name, opts=opts, pre=pre: prefitted(name, opts, pre))
+        f.pre = pre
+        yield key, f, name, opts, np.asarray(data, dtype=float), kind
 
 
 def concrete(m):
@@ -386,6 +415,26 @@ def concrete(m):
 def is_constant_obj(m):
     m = concrete(m)
     return getattr(m.sample, '__func__', None) is type(m)._constant_sample
+
+
+CONST_METHODS = ('cumulative_distribution', 'percent_point', 'probability_density', 'sample')
+
+
+def stale_state(m):
+    """'' if the object is in a state a single `fit` (or `from_dict`) produces; otherwise what earlier fits left behind:
+    constant-method overrides that do not match the constant flag, or a `_model` kept by a constant model.  Such
+    states are outside the Lean model's state space (its `constant` means: all four methods replaced; `_model`
+    exists iff not constant), so the tie leaves them to the search."""
+    c = concrete(m)
+    over = [k for k in CONST_METHODS if k in c.__dict__]
+    const = getattr(c, '_constant_value', None) is not None
+    if const and len(over) != len(CONST_METHODS):
+        return 'constant-with-missing-overrides:' + ','.join(k for k in CONST_METHODS if k not in over)
+    if not const and over:
+        return 'non-constant-with-stale-overrides:' + ','.join(over)
+    if type(c).__name__ == 'GaussianKDE' and const and '_model' in c.__dict__:
+        return 'constant-with-stale-_model'
+    return ''
 
 
 def uni_probe_inputs(rs, data):
@@ -402,7 +451,8 @@ def uni_behaviour(m, x, u, seed, nsamp=12):
     out['to_dict'] = outcome(lambda: wire(m.to_dict()))
     out['pdf'] = outcome(lambda: m.probability_density(x))
     out['cdf'] = outcome(lambda: m.cumulative_distribution(x))
-    out['ppf'] = outcome(lambda: m.percent_point(u))
+    out['percent_point'] = outcome(lambda: m.percent_point(u))
+    out['log_pdf'] = outcome(lambda: m.log_probability_density(x))
 
     def samp_seeded():
         m.set_random_state(seed)
@@ -507,6 +557,8 @@ def tie_univariate(ctx, lean, tab, n_random):
                 continue
             ctx.case(key, True)
             ctx.count(f'uni:{name}:{"const" if kind == "const" else "data"}')
+            if len(key) > 4:
+                ctx.count(f'uni:history:{key[4]}')
             c = concrete(m)
             row = tab[qual(c)]
             d = m.to_dict()
@@ -553,6 +605,10 @@ def tie_univariate(ctx, lean, tab, n_random):
             eq, why = model_predicts_equal(tab, m, lean_const)
             if not eq:
                 ctx.count(f'uni:model-predicts-divergence:{why}:{type(c).__name__}')
+                continue
+            st = stale_state(m)
+            if st:
+                ctx.count(f'uni:original-outside-model-states(left to search):{st}')
                 continue
             rs = ctx.nprng('uni-probe', *map(str, key))
             x, u = uni_probe_inputs(rs, data)
@@ -654,7 +710,7 @@ def biv_behaviour(m, X, y, v, seed):
     out['pdf'] = outcome(lambda: m.probability_density(X))
     out['cdf'] = outcome(lambda: m.cumulative_distribution(X))
     out['h'] = outcome(lambda: m.partial_derivative(X))
-    out['ppf'] = outcome(lambda: m.percent_point(y, v))
+    out['percent_point'] = outcome(lambda: m.percent_point(y, v))
 
     def samp():
         m.set_random_state(seed)
@@ -794,6 +850,25 @@ def gauss_specs(ctx, n_cases, deep=False):
         kde = C['GaussianKDE'] if variant == 'kde' else Univariate(candidates=[C['GaussianKDE']])
         g = GaussianMultivariate(distribution={'ts': kde, 'len': kde, 'x': C['GaussianUnivariate']})
         out.append((('str', 'dict', ('rel-epoch:' + variant, 'rel-offset1:' + variant, 'GaussianUnivariate'), n), g, df, df))
+    # fit HISTORIES: the same GaussianMultivariate object fitted before on another table
+    for h in (('const>data', 'data>const', 'other-columns') if deep else (rng.choice(['const>data', 'data>const', 'other-columns']),)):
+        rs = np.random.RandomState(rng.getrandbits(32))
+        n = rng.randint(100, 160) if deep else rng.randint(40, 60)
+        z = rs.normal(size=(n, 3))
+        z[:, 2] -= 0.6 * z[:, 0]
+        plain = pd.DataFrame({'a': z[:, 0], 'b': np.exp(0.4 * z[:, 1]), 'c': z[:, 2]})
+        withc = plain.copy()
+        withc['b'] = 2.5
+        withc['c'] = rs.normal(size=n)
+        first, second = {'const>data': (withc, plain), 'data>const': (plain, withc),
+                         'other-columns': (plain.rename(columns={'a': 'p', 'b': 'q', 'c': 'r'})[['r', 'p']], plain)}[h]
+        dist = rng.choice(['default', 'gauss', 'dict'])
+        g = GaussianMultivariate() if dist == 'default' else \
+            GaussianMultivariate(distribution=C['GaussianUnivariate']) if dist == 'gauss' else \
+            GaussianMultivariate(distribution={'a': C['GaussianKDE'], 'b': Univariate(candidates=[C['GaussianUnivariate'], C['GammaUnivariate']]),
+                                               'c': C['StudentTUnivariate']})
+        outcome(lambda: g.fit(first))
+        out.append((('str', dist, ('refit:' + h,), n), g, second, second))
     return out
 
 
@@ -801,6 +876,7 @@ def gauss_behaviour(g, X, seed):
     out = {}
     out['to_dict'] = outcome(lambda: wire(g.to_dict()))
     out['pdf'] = outcome(lambda: g.probability_density(X))
+    out['log_pdf'] = outcome(lambda: g.log_probability_density(X))
     out['cdf2'] = outcome(lambda: g.cumulative_distribution(X.iloc[:3]))
 
     def samp():
@@ -983,6 +1059,16 @@ def vine_specs(ctx, n_each, deep=False):
             trunc = rng.choice([3, 3, 2, 1, d])
             out.append(((vt, d, n, trunc, 'str' if isinstance(labels[0], str) else 'int'), VineCopula(vt),
                         pd.DataFrame(Z, columns=labels), trunc))
+    # fit HISTORIES: a vine object fitted before on another table (other width, other truncation)
+    for vt in (('center', 'direct', 'regular') if deep else (rng.choice(['center', 'direct', 'regular']),)):
+        rs = np.random.RandomState(rng.getrandbits(32))
+        n = rng.randint(55, 70)
+        d1, d2 = rng.choice([(4, 3), (3, 4), (4, 4)])
+        first = pd.DataFrame(rs.normal(size=(n, d1)) @ rs.normal(size=(d1, d1)), columns=[f'o{j}' for j in range(d1)])
+        second = pd.DataFrame(rs.normal(size=(n + 5, d2)) @ rs.normal(size=(d2, d2)), columns=[f'v{j}' for j in range(d2)])
+        v = VineCopula(vt)
+        outcome(lambda: v.fit(first, truncated=rng.choice([1, 3])))
+        out.append(((vt, d2, n + 5, 3, 'refit'), v, second, 3))
     return out
 
 
@@ -1197,7 +1283,7 @@ def _report(ctx, found, entry, inp, obs, req, cls):
     ctx.fail_input(entry, inp, obs, req, cls)
 
 
-def _uni_class_key(m, variant, what):
+def _uni_class_key(m, variant, what, hist=''):
     from copulas.univariate import Univariate
     c = concrete(m)
     name = type(c).__name__
@@ -1218,6 +1304,13 @@ def _uni_class_key(m, variant, what):
                     # e.g. a standard deviation that underflowed to 0.0 on non-constant data
                     return entry, f'{name}.from_dict:non-constant-fit-with-zero-scale-detected-as-constant'
                 return entry, f'{name}.from_dict:non-constant-fit-detected-as-constant'
+    if hist:
+        st = stale_state(m)
+        if st == 'constant-with-stale-_model' and what == 'log_pdf':
+            # the constant refit left the kernel estimate of the EARLIER data in `_model`, and log_probability_density
+            # (not among the replaced methods) still evaluates it; the rebuilt constant model has no `_model`
+            return entry, f'{entry}:log_pdf-differs:constant-refit-keeps-stale-_model'
+        return entry, f'{entry}:{what}-differs:after-refit'
     return entry, f'{entry}:{what}-differs'
 
 
@@ -1237,6 +1330,8 @@ def search_univariate(ctx, deep, found):
             m = factory()
             if outcome(lambda: m.fit(data))[0] == 'err':
                 continue
+            hist = key[4] if len(key) > 4 else ''
+            pre = getattr(factory, 'pre', ())
             d = m.to_dict()
             rs = ctx.nprng('search-uni-probe', *map(str, key))
             x, u = uni_probe_inputs(rs, data)
@@ -1251,6 +1346,9 @@ def search_univariate(ctx, deep, found):
                                                                         'head': data[:6].tolist(), 'min': float(np.min(data)),
                                                                         'max': float(np.max(data))},
                        'variant': vname}
+                if hist:
+                    inp['history'] = {'fits': hist, 'earlier_data': [(p.tolist() if len(p) <= 40 else
+                                                                      {'n': len(p), 'head': p[:6].tolist()}) for p in pre]}
                 if robj[0] == 'err':
                     e, cls = _uni_class_key(m, vname, 'raises')
                     cls = f'{e}:raises-{robj[1]}'
@@ -1269,7 +1367,7 @@ def search_univariate(ctx, deep, found):
                     continue
                 diff = compare_behaviour(b0, uni_behaviour(o, x, u, 23, nsamp=40 if deep else 12))
                 if diff:
-                    e, cls = _uni_class_key(m, vname, diff)
+                    e, cls = _uni_class_key(m, vname, diff, hist)
                     b1 = uni_behaviour(o, x, u, 23)
                     obs = {'differs': diff, 'original': _brief(b0[diff]), 'rebuilt': _brief(b1.get(diff))}
                     _report(ctx, found, e, inp, obs, f'{diff} identical to the original model\'s', cls)
@@ -1347,7 +1445,7 @@ def search_gaussian(ctx, deep, found, tab_like):
                 diff = compare_behaviour(b0, gauss_behaviour(o, X, 4), skip)
                 if diff:
                     # attribute the divergence to a marginal when one of them is a known-divergent shape
-                    cls = f'{e}:{diff}-differs'
+                    cls = f'{e}:{diff}-differs' + (':after-refit' if str(key[2][0]).startswith('refit:') else '')
                     if vname != 'save_load':
                         for u in g.univariates:
                             eq, why = model_predicts_equal_quick(tab_like, u)
@@ -1392,7 +1490,8 @@ def search_vine(ctx, deep, found):
                     continue
                 diff = compare_behaviour(b0, vine_behaviour(o, u, 6), skip)
                 if diff:
-                    _report(ctx, found, e, inp, {'differs': diff}, f'{diff} identical', f'{e}:{diff}-differs')
+                    _report(ctx, found, e, inp, {'differs': diff}, f'{diff} identical',
+                            f'{e}:{diff}-differs' + (':after-refit' if key[4] == 'refit' else ''))
     finally:
         shutil.rmtree(tmp, ignore_errors=True)
     return checked
